@@ -217,3 +217,8 @@ CHECKS["C05"] = ScalarCheck()
 from harness.checks_expr import ExprCheck  # noqa: E402
 
 CHECKS["C10"] = ExprCheck()
+
+
+from harness.checks_union import UnionCheck  # noqa: E402
+
+CHECKS["C11"] = UnionCheck()
